@@ -327,11 +327,11 @@ def debug_model_exprs(it, et, tids, preds):
     ub = "[%s]" % "; ".join(ub)
     if it["kind"] == "struct":
         return ["g_expand_one unicode_cc {| g_fmt := %s; g_user_bounds := %s; g_name := %s; g_fields := %s; g_params := %s |}" % (
-            F.opt_attr_coq(c.get("fmt"), et), ub, coq_str(it["name"]), F.fields_coq(it["fields"], et, tids), params)]
+            F.opt_attr_coq(c.get("fmt"), et), ub, coq_str(F.unraw(it["name"])), F.fields_coq(it["fields"], et, tids), params)]
     vs = []
     for v in it["variants"]:
         vs.append("{| g_fmt := %s; g_user_bounds := %s; g_name := %s; g_fields := %s; g_params := %s |}" % (
-            F.opt_attr_coq(v.get("fmt"), et), ub, coq_str(v["name"]), F.fields_coq(v["fields"], et, tids), params))
+            F.opt_attr_coq(v.get("fmt"), et), ub, coq_str(F.unraw(v["name"])), F.fields_coq(v["fields"], et, tids), params))
     return ["g_expand_enum unicode_cc %s [%s]" % ("true" if c.get("fmt") is not None else "false", "; ".join(vs))]
 
 
